@@ -3,7 +3,7 @@ CONSTANTS
   MonthlyLens = {15, 24, 25, 30, 35, 36, 40}
   BimonthlyLens = {24, 25, 59, 61, 70, 71}
   CalLens = {20, 25, 30, 31, 35, 36, 61, 70, 71}
-  CalLen = 5
+  CalLen = 4
 INVARIANT Conservation
 INVARIANT CycleReadingsExclusive
 INVARIANT CalendarConservation
